@@ -738,3 +738,64 @@ package xmpp
 //@   loop 1:
 //@     invariant [C05.ws.reader.nocancel] count(CtxCancelled) == old(count(CtxCancelled))
 //@     invariant t.wsConn != nil
+
+// ---------------------------------------------------------------------------
+// C08: each send is one whole Write (the remaining senders and the traffic logger)
+//
+//@ func (*xmpp.streamLogger).Write(sl, p) (n, err)
+//@   requires sl != nil && sl.socket != nil && sl.logFile != nil
+//@   ensures [C08.logger.socket] count(Write) >= old(count(Write)) + 2 && arg(Write, old(count(Write)) + 1, 0) == sl.socket && arg(Write, old(count(Write)) + 1, 1) == bytes(p)
+//@   ensures [C08.logger.once]   forall(j, old(count(Write)) + 2, count(Write), arg(Write, j, 0) == sl.logFile) && arg(Write, old(count(Write)), 0) == sl.logFile
+//@   ensures [C08.logger.ok]     err == nil ==> n == len(p) && arg(Write, old(count(Write)) + 1, 2)
+//@   ensures [C08.logger.err]    !arg(Write, old(count(Write)) + 1, 2) ==> err != nil
+//@   emits Write
+//@   loop 1:
+//@     invariant 0 <= $i && $i <= 2 && len($range) == 2 && $range[0] == sl.socket && $range[1] == sl.logFile && count(Write) == old(count(Write)) + 1 + $i
+//@     invariant arg(Write, old(count(Write)), 0) == sl.logFile
+//@     invariant $i >= 1 ==> arg(Write, old(count(Write)) + 1, 0) == sl.socket && arg(Write, old(count(Write)) + 1, 1) == bytes(p) && arg(Write, old(count(Write)) + 1, 2)
+//@     invariant $i >= 2 ==> arg(Write, old(count(Write)) + 2, 0) == sl.logFile
+//@     decreases 2 - $i
+//
+//@ func (*xmpp.Component).Send(c, packet) (err)
+//@   requires c != nil
+//@   emit Send(iface(c), packet)
+//@   emit SendAttrs(pkType(packet), pkId(packet), pkFrom(packet), pkTo(packet), pkReason(packet))
+//@   ensures [C08.comp.send.atmost] count(Write) <= old(count(Write)) + 1
+//@   ensures [C08.comp.send.once] err == nil ==> count(Write) == old(count(Write)) + 1 && last(Write, 0) == old(c.transport) && last(Write, 1) == xmlOf(packet) && last(Write, 2)
+//@   ensures [C08.comp.send.err]  (count(Write) == old(count(Write)) + 1 && !last(Write, 2)) ==> err != nil
+//@   emits Write, Marshaled
+//@ func (*xmpp.Component).SendRaw(c, packet) (err)
+//@   requires c != nil
+//@   emit SendRaw(iface(c), packet)
+//@   ensures [C08.comp.sendraw.atmost] count(Write) <= old(count(Write)) + 1
+//@   ensures [C08.comp.sendraw.once] err == nil ==> count(Write) == old(count(Write)) + 1 && last(Write, 0) == old(c.transport) && last(Write, 1) == packet && last(Write, 2)
+//@   ensures [C08.comp.sendraw.err]  (count(Write) == old(count(Write)) + 1 && !last(Write, 2)) ==> err != nil
+//@   emits Write
+//
+//@ event Registered(r Ref, id Str)
+//@ func (*xmpp.Router).NewIQResultRoute(r, ctx, id) (ch)
+//@   requires r != nil && r.IQResultRoutes != nil
+//@   emit Registered(r, id)
+//@   ensures [C07.register] ch != nil && mapHas(r.IQResultRoutes, id) && mapGet(r.IQResultRoutes, id) != nil && mapGet(r.IQResultRoutes, id).result == ch && fresh(ch)
+//@   ensures [C07.register.others] alls(k, k != id ==> mapHas(r.IQResultRoutes, k) == old(mapHas(r.IQResultRoutes, k)) && mapGet(r.IQResultRoutes, k) == old(mapGet(r.IQResultRoutes, k)))
+//@   ensures [C07.register.lock] locked(addr(r.IQResultRouteLock)) == old(locked(addr(r.IQResultRouteLock)))
+//@   elems r.IQResultRoutes
+//@   assigns locked(addr(r.IQResultRouteLock))
+//@   emits Spawn, Spawn_NewIQResultRoute$1
+//
+//@ func (*xmpp.Client).SendIQ(c, ctx, iq) (ch, err)
+//@   requires clientOK(c) && iq != nil && c.router != nil && c.router.IQResultRoutes != nil
+//@   ensures [C08.sendiq.reject] (old(iq.Type) != "set" && old(iq.Type) != "get") ==> err == ErrCanOnlySendGetOrSetIq && ch == nil && count(Write) == old(count(Write)) && count(Registered) == old(count(Registered))
+//@   ensures [C08.sendiq.once]   err == nil ==> count(Write) == old(count(Write)) + 1 && last(Write, 1) == xmlOf(iface(iq)) && last(Write, 2) && ch != nil
+//@   ensures [C08.sendiq.err]    (count(Write) == old(count(Write)) + 1 && !last(Write, 2)) ==> err != nil
+//@   assigns c.Session.SMState.UnAckQueue.Uslice, locked(addr(c.router.IQResultRouteLock))
+//@   elems c.Session.SMState.UnAckQueue.Uslice, c.router.IQResultRoutes
+//@   emits Write, Marshaled, Send, SendAttrs, Registered, Spawn, Spawn_NewIQResultRoute$1
+//
+//@ func (*xmpp.Component).SendIQ(c, ctx, iq) (ch, err)
+//@   requires c != nil && iq != nil && c.router != nil && c.router.IQResultRoutes != nil
+//@   ensures [C08.comp.sendiq.reject] (old(iq.Type) != "set" && old(iq.Type) != "get") ==> err == ErrCanOnlySendGetOrSetIq && ch == nil && count(Write) == old(count(Write)) && count(Registered) == old(count(Registered))
+//@   ensures [C08.comp.sendiq.once]   err == nil ==> count(Write) == old(count(Write)) + 1 && last(Write, 1) == xmlOf(iface(iq)) && last(Write, 2) && ch != nil
+//@   assigns locked(addr(c.router.IQResultRouteLock))
+//@   elems c.router.IQResultRoutes
+//@   emits Write, Marshaled, Send, SendAttrs, Registered, Spawn, Spawn_NewIQResultRoute$1
